@@ -23,6 +23,5 @@ CONSTANTS
     Depth = 50
 CONSTRAINT Bounded
 INVARIANT Emit
-INVARIANT InOrderAtMostOnce
 INVARIANT WindowsConsistent
 CHECK_DEADLOCK FALSE
